@@ -65,6 +65,8 @@ def run(run, ix, tier):
     c38.check_foreign_constants(run, ix, rule='K-R7')
     run.rule('K-R8', floor=4, desc='eps, defined by its context\'s precision, is not evaluated at the receiver\'s (X-R14)')
     c38.check_contextual_constants(run, ix, rule='K-R8')
+    run.rule('K-R9', floor=4, desc='operators, comparisons and fsum do not read the _mpf_ of a constant of another context (X-R15)')
+    c38.check_foreign_constants_in_operators(run, ix, rule='K-R9')
     check_more_term_counts(run, ix)
     check_series_amplification(run, ix)
 
